@@ -140,7 +140,7 @@ theorem rep_return {G : GCtx} (ok : G.OK) {pi : PInfo} (hpi : pi ∈ G.procs) (s
                 simp only [Except.ok.injEq, Val.int.injEq] at hr
                 subst hr
                 obtain ⟨a, ha, hm⟩ := hg.gvars n w' hn hgl
-                have hlt := ok.gloc_lo n a ha
+                have hlt := ok.gloc_lo n hn a ha
                 have htop := ok.top
                 refine ⟨a, ?_, by unfold memWords at *; omega, hm⟩
                 show G.locOf pi sp n = _
